@@ -246,7 +246,10 @@ def real_replays(res, c, cfg, picks, fault, tier, limit):
         done.add(tuple(x.choices))
         n += 1
         err = rc.conform_real(cfg, x.choices, fault, x)
-        if err is None:
+        if err == "SKIPPED":
+            res.count("schedules_with_shared_semaphores_not_replayed_on_real_processes")
+            res.sample(rc.schedule_sample(x, c, fault))
+        elif err is None:
             res.count("traces_validated_against_impl")
             res.sample(rc.schedule_sample(x, c, fault))
         else:
@@ -272,6 +275,8 @@ def run_shard(spec, tier, scratch):
 
             def on(x):
                 err = rc.conform_real(cfg, x.choices, None, x)
+                if err == "SKIPPED":
+                    return
                 if err is not None:
                     raise fw.HarnessError(f"real-process replay of schedule {x.choices} ({rc.cfg_key(c)}) does not conform to the model: {err}")
                 res.count("traces_validated_against_impl")
@@ -297,7 +302,7 @@ def finalize(results, tier):
     }
     if st.get("executions_with_timeout", 0) == 0:
         out["harness_error"] = "vacuous exploration: no execution contained a queue timeout"
-    if st.get("traces_validated_against_impl", 0) == 0:
+    if st.get("traces_validated_against_impl", 0) == 0 and not st.get("schedules_with_shared_semaphores_not_replayed_on_real_processes"):
         out["harness_error"] = "no schedule was validated on real processes"
     if st.get("explorations_capped", 0):
         out["coverage"]["exhaustive"] = False
@@ -328,6 +333,9 @@ def replay(case, scratch):
             res.fail(v[0], v[1] + f" [model of a pipe holding {c['pipe']} message(s); a real pipe holds 64 KiB, i.e. this needs a batch whose results exceed it]", case)
             return res.failures
         err = rc.conform_real(cfg, case["schedule"], case.get("fault"), x1)
+        if err == "SKIPPED":
+            res.fail(v[0], v[1] + " [model only: the code shares semaphores/locks with its workers, which the real-process replay does not gate]", case)
+            return res.failures
         if err is not None:
             raise fw.HarnessError(f"counterexample does not reproduce on real processes: {err}")
         res.fail(v[0], v[1] + " [reproduced with real processes and a real multiprocessing.Queue]", case)
